@@ -416,6 +416,10 @@ def spec_c04(c):
         return None
     if c["meta"]["outcome"] == 1:
         return "C04: deadlock (no enabled scheduling action while a thread is unfinished) reported by the scheduler shim"
+    st = c["meta"].get("stats") or []
+    if c["meta"]["outcome"] == 0 and len(st) == 5 and st[0] != st[1] + st[2] + st[3]:
+        # directly on the implementation's counters, independent of the model's acceptance of the history
+        return "C04: the returned statistics do not add up: %d executed subproblems but %d no-solution + %d infeasible + %d feasible" % tuple(st[:4])
     if has(c, TREE, "accepted", "returned") and not has(c, TREE, "stats"):
         return "C04: returned statistics do not add up / differ from the model's counters (solved = nosol + infeasible + feasible, generated = solved + bounded)"
     return None
@@ -437,6 +441,9 @@ def spec_c19(c):
     if c["meta"]["outcome"] == 1:
         return "C19: deadlock although a node solver failed (remaining workers wait for ever)" if has(c, TREE, "haspanic") else \
                "C19: deadlock reported by the scheduler shim"
+    if c["meta"].get("failed_nodes", 0) > 0 and c["meta"]["outcome"] == 0:
+        # counted by the harness's node function itself, independent of the recorded history and of the model
+        return "C19: a node solver failed (%d failing execution(s)) but solve returned normally (failure not reported)" % c["meta"]["failed_nodes"]
     if has(c, TREE, "accepted") and not has(c, TREE, "outcome"):
         return "C19: a node solver failed but solve returned normally (failure not reported), or a panic without a failing node"
     return None
@@ -787,11 +794,30 @@ def exit_checks(ctx, scen_fn, pid, what_table):
 
 def c15_extra(ctx, cases):
     n = 160 if ctx.tier == "quick" else 1500
-    return exit_checks(ctx, lambda c, b: faults.scenarios_c15(c, b, n), "C15", {
+    viol, _ = exit_checks(ctx, lambda c, b: faults.scenarios_c15(c, b, n), "C15", {
         "crash": "C15: the program panics / aborts / hangs on malformed input (exit %s; %s)",
         "c16": "C15/C16: exit status 0 without a complete output file",
         "c15": "C15: malformed input is not refused with a data/usage error status (exit %s)",
         "nofile": "C15: an output file exists although the input was refused"})
+    cov = dict(ctx.extra_cov or {})
+    # the simple-format reader model (SimpleRead) against simple::read + check_data_consistency, and the binary on a sample
+    import simple
+    recs = simple.reader_cases(ctx, ctx.seed + 15, 400 if ctx.tier == "quick" else 4000, vlib.build_cli(), bin_sample=80 if ctx.tier == "quick" else 600)
+    v2, dis, st = simple.classify(recs)
+    brief = lambda r: {k: r.get(k) for k in ("kind", "doc", "impl", "code", "bin", "file")}
+    for w, r in v2[:5]:
+        rp = ctx.replay({"kind": "failing-input", "stream": "simple-reader", "what": w, "case": brief(r)})
+        viol.append((w + " [" + json.dumps(r["doc"])[:200] + "]", rp, False))
+    if dis and not v2:
+        r = min(dis, key=lambda x: len(json.dumps(x["doc"])))
+        rp = ctx.replay({"kind": "no-failing-input-found", "stream": "simple-reader", "broken": "correspondence CorrSimple.check_simple: the model "
+                         "SimpleRead.simple_read / consistentb and io::simple::read / check_data_consistency differ on a document",
+                         "first_disagreeing_case": brief(r), "disagreements": len(dis)})
+        viol.append(("the simple-format reader model differs from io::simple::read on %d documents, e.g. %s" % (len(dis), json.dumps(r["doc"])[:200]), rp, True))
+    st["runs"] = st["docs"]
+    cov["simple_reader"] = dict(st)
+    ctx.extra_cov = cov
+    return viol[:5], []
 
 
 def c16_extra(ctx, cases):
@@ -1198,13 +1224,18 @@ REGISTRY = {
                    "options, --num-threads 0 / -1 / x, missing input, no arguments; stage results predicted by construction or by the library probe",
                    extra_fn=c15_extra), allow_axioms=(),
         explanation="C15_refused (Cli.malformed_refused): for every combination of stage results that is not a well-formed run the exit status is "
-                    "one of 2/64/65/66 and the output stage is never reached; C15_consistency_gate: inconsistent data is a refusal.  The real "
-                    "binary (debug build) is run on the malformed stream; exit status compared in Coq with Cli.exit_code on the stage results "
-                    "observed through the library; any panic/abort/hang or an output file after a refusal is a violation.",
-        trusted_base=["modelled: the decision skeleton of main.rs only; serde_json / clap parsing are trusted libraries returning Ok/Err; the CdE "
-                      "reader's totality on generic JSON is exercised (not proved) by the corruption stream; memory exhaustion for absurd sizes "
-                      "(num_max ~ 10^6 and more) is a resource limit outside the claim"],
-        assumptions=["'malformed' = some stage returns Err, as observed through the same library functions main.rs calls"]),
+                    "one of 2/64/65/66 and the output stage is never reached.  C15_simple_refused / C15_simple_accepted: the simple-format reader and "
+                    "check_data_consistency as total Gallina functions of the JSON document (SimpleRead: serde's derived deserializers from objects "
+                    "and arrays, defaults, integer ranges; consistency incl. penalty < WEIGHT_OFFSET and instructor uniqueness): what the model does "
+                    "not accept is refused, what it accepts has all references in range.  The model is compared exactly with simple::read + "
+                    "check_data_consistency on generated, positional-form, boundary-value and corrupted documents, and the real binary (debug build) is "
+                    "run on a sample (refused with 65 exactly when the model does not accept) and on the malformed stream (exit status compared in "
+                    "Coq with Cli.exit_code); any panic/abort/hang or an output file after a refusal is a violation.",
+        trusted_base=["modelled: the decision skeleton of main.rs, io::simple::read, io::check_data_consistency; serde_json text -> Value and clap "
+                      "parsing are trusted libraries; the CdE reader is the model of C12 (total by construction, exact correspondence there); time / "
+                      "memory exhaustion for absurd sizes (>= 5000 course places) is a resource limit outside the claim"],
+        assumptions=["'malformed' = some stage returns Err, as predicted by the reader model (simple format) or by construction / the same library "
+                     "functions main.rs calls (other stages)"]),
     "C16": dict(mk(spec_none, streams_none, "output faults on the real binary: missing directory (ENOENT), path below a regular file (ENOTDIR), path is a "
                    "directory (EISDIR), 5000-character name (ENAMETOOLONG), /dev/full (ENOSPC on write), an existing longer file at the path; both "
                    "formats (simple, CdE small and large), with and without --print", extra_fn=c16_extra), allow_axioms=(),
